@@ -136,7 +136,7 @@ def automaton_case(ctx, idx, rng):
     eid = [int(rng.integers(0, 3))]
 
     def add_edge(a, b, forced=None):
-        kind = int(rng.integers(0, 4)) if forced is None else forced
+        kind = int(rng.integers(0, 5)) if forced is None else forced
         base = [(int(rng.integers(0, 3)), float(rng.choice([-1, .5, 1, 2, 0.0]) if forced is None else rng.choice([-1, .5, 1, 2])))]
         if rng.random() < 0.25:
             base.append((int(rng.integers(0, 3)), float(rng.choice([-1, .5, 1, 2]))))
@@ -152,6 +152,14 @@ def automaton_case(ctx, idx, rng):
             opics = (lambda i, b=base: [(o, c * (i + 1)) for o, c in b])
             act = True
             f_op, f_act = opics, (lambda i: True)
+        elif kind == 4:
+            # coefficients stored per site for the sites where the edge exists ONLY (impurity / boundary terms in a dict keyed by site):
+            # opics(i) raises KeyError off the activity domain -- honouring activity means not asking for data of an inactive edge
+            dom = sorted(set(int(x) for x in rng.integers(0, L, size=int(rng.integers(1, 4)))))
+            table = {i: [(o, c * float(rng.choice([1.0, -2.0, 0.5]))) for o, c in base] for i in dom}
+            opics = (lambda i, t=table: t[i])
+            act = (lambda i, t=table: i in t)
+            f_op, f_act = opics, act
         else:
             lo = int(rng.integers(0, L))
             opics = (lambda i, b=base: [(o, c * (2.0 if i % 2 else 0.5)) for o, c in b])
@@ -189,7 +197,7 @@ def automaton_case(ctx, idx, rng):
     kinds = sorted({('loop' if a == b else 'edge') for a, b, _, _ in espec})
     ctx.case(('automaton', f'L{min(L, 4)}', f'n{nn}', 'same-terminals' if t0 == t1 else 'distinct-terminals', 'ids-' + lab_kind, 'nodes-' + order_kind) + tuple(kinds) + (f'edges{min(len(espec), 8)}',),
              sample={'L': L, 'node_ids_in_list_order': [labels[k] for k in order], 'terminals': [labels[t0], labels[t1]], 'edges': [(labels[a], labels[b]) for a, b, _, _ in espec]},
-             info={'L': L, 'nodes': nn, 'terminals': [t0, t1], 'edges': [(a, b, [f(i) for i in range(L)], [bool(g(i)) for i in range(L)]) for a, b, f, g in espec]})
+             info={'L': L, 'nodes': nn, 'terminals': [t0, t1], 'edges': [(a, b, [f(i) if g(i) else None for i in range(L)], [bool(g(i)) for i in range(L)]) for a, b, f, g in espec]})
     detail = ctx.cur_info
     g = ptn.OpGraph.from_automaton(au, L)
     st = refs.graph_structure_ok(g)
